@@ -14,7 +14,10 @@ from .common import MachineryError
 FORMATS = ["glyf", "glyf_colr_0", "glyf_colr_1", "cff_colr_0", "cff_colr_1", "cff2_colr_0", "cff2_colr_1", "picosvg", "picosvgz",
            "untouchedsvg", "untouchedsvgz", "cbdt", "sbix"]
 KF_NAME = "glyph-name-collision-g-prefix"
-VIEWBOXES = [(0, 0, 100, 100), (0, 0, 25, 100), (0, 0, 400, 100), (0, 0, 150, 100), (0, 0, 100, 160)]
+# aspect ratios 1:4 .. 4:1; the last four make em*w/h fractional (.75, .875, .125, .75 with the default metrics), above and
+# below the configured widths, so that the rounding in the advance rule is observable
+VIEWBOXES = [(0, 0, 100, 100), (0, 0, 25, 100), (0, 0, 400, 100), (0, 0, 150, 100), (0, 0, 100, 160),
+             (0, 0, 138, 128), (0, 0, 173, 128), (0, 0, 131, 128), (0, 0, 50, 128)]
 
 
 def svg_for(k, vb):
@@ -139,7 +142,10 @@ def build_and_check(chk, sc, fmt, k, keep, replay_base):
         if fmt in ("cbdt", "sbix"):
             if drawn is None or drawn[1] != src.png_bytes:
                 chk.violation(f"{fmt}: glyph reached from {['%x' % c for c in cps]} does not carry its source's bitmap", replay)
-            want_adv = max(width, round(em * vb[2] / vb[3]))
+            # a bitmap glyph's box is its pixel box (ColorGlyph.create: Rect(0, 0, *bitmap.size)): the PNG the harness
+            # supplies is max(1, round(48 * w / h)) x 48 pixels
+            pw = max(1, round(48 * vb[2] / vb[3]))
+            want_adv = max(width, round(em * pw / 48))
         else:
             exp, adv, A = oracle_svg.expected_layers(src.svg_text if raw else build.to_picosvg(src.svg_text).tostring(), oc)
             eb = exp[0].shape.bounds
